@@ -35,13 +35,15 @@ const (
 var opNames = []string{"start", "send", "recv", "select", "lock", "quiesce", "unlock", "close", "rlock", "runlock", "wg.add", "wg.wait", "once", "yield", "atomic"}
 
 type Chan struct {
-	id     int
-	cap    int
-	buf    []Value
-	closed bool
-	timer  bool
-	ticker bool // never runs dry: every receive succeeds
-	et     types.Type
+	id      int
+	cap     int
+	buf     []Value
+	closed  bool
+	timer   bool
+	ticker  bool // never runs dry: every receive succeeds
+	et      types.Type
+	bufVC   []vclock // clock of the sender of each buffered value
+	closeVC vclock
 }
 
 type SelCase struct {
@@ -82,6 +84,7 @@ type G struct {
 	pos    token.Pos
 	stack  []*ssa.Function
 	fnName string
+	vc     vclock
 }
 
 type abortPanic struct{}
@@ -98,6 +101,7 @@ func (m *Machine) spawn(body func(), name string) *G {
 	g := &G{id: len(m.gs), name: name, resume: make(chan resumeMsg), body: body, fnName: name}
 	g.parked = &Op{kind: opStart}
 	m.gs = append(m.gs, g)
+	m.hbSpawn(m.cur, g)
 	go func() {
 		msg := <-g.resume
 		if msg.abort {
@@ -472,13 +476,50 @@ func (m *Machine) apply(t trans) []*G {
 		po := t.partner.parked
 		po.rval, po.rok, po.ridx = v, true, t.pcase
 		op.ridx = t.gcase
+		if m.hb != nil { // a rendezvous orders both sides
+			j := vcJoin(g.vc, t.partner.vc)
+			g.vc, t.partner.vc = vcCopy(j), vcCopy(j)
+			m.hbTick(g)
+			m.hbTick(t.partner)
+		}
 		return []*G{g, t.partner}
 	}
 	switch op.kind {
 	case opLock:
 		m.locked[op.mu] = true
+		m.hbAcquire(g, op.mu)
+		if m.hb != nil {
+			if rv, ok := m.hb.readerVC[op.mu]; ok {
+				g.vc = vcJoin(g.vc, rv)
+			}
+		}
 	case opRLock:
 		m.rlocked[op.mu]++
+		m.hbAcquire(g, op.mu)
+	case opUnlock:
+		m.hbRelease(g, op.mu)
+	case opRUnlock:
+		if m.hb != nil {
+			m.hb.readerVC[op.mu] = vcJoin(m.hb.readerVC[op.mu], g.vc)
+			m.hbTick(g)
+		}
+	case opWgAdd:
+		if op.n < 0 {
+			m.hbReleaseJoin(g, op.mu)
+		}
+	case opWgWait:
+		m.hbAcquire(g, op.mu)
+	case opClose:
+		if m.hb != nil && op.ch != nil {
+			op.ch.closeVC = vcCopy(g.vc)
+			m.hbTick(g)
+		}
+	case opQuiesce:
+		if m.hb != nil { // quiescence is the harness's observation point: ordered after everything
+			for _, o := range m.gs {
+				g.vc = vcJoin(g.vc, o.vc)
+			}
+		}
 	case opSend, opRecv, opSelect:
 		ci := t.gcase
 		if ci == -2 {
@@ -492,6 +533,10 @@ func (m *Machine) apply(t trans) []*G {
 				m.pendingPanic = "send on closed channel"
 			} else {
 				c.buf = append(c.buf, v)
+				if m.hb != nil {
+					c.bufVC = append(c.bufVC, vcCopy(g.vc))
+					m.hbTick(g)
+				}
 			}
 			op.ridx = ci
 		} else {
@@ -501,11 +546,20 @@ func (m *Machine) apply(t trans) []*G {
 			}
 			if len(c.buf) > 0 {
 				op.rval, op.rok = c.buf[0], true
+				if m.hb != nil && len(c.bufVC) > 0 {
+					g.vc = vcJoin(g.vc, c.bufVC[0])
+					if !c.ticker {
+						c.bufVC = c.bufVC[1:]
+					}
+				}
 				if !c.ticker {
 					c.buf = c.buf[1:]
 				}
 			} else { // closed
 				op.rval, op.rok = nil, false
+				if m.hb != nil && c.closeVC != nil {
+					g.vc = vcJoin(g.vc, c.closeVC)
+				}
 			}
 			op.ridx = ci
 		}
@@ -559,6 +613,9 @@ func (m *Machine) blockedList() ([]string, []string) {
 func (m *Machine) runConcurrent(fn *ssa.Function) string {
 	m.events = make(chan gEvent)
 	m.onceRunning = map[*Value]bool{}
+	if m.spec.HB {
+		m.hbInit()
+	}
 	main := m.spawn(func() { m.call(fn, nil, false) }, "main")
 	defer m.abortAll()
 	var lastG *G
